@@ -586,6 +586,21 @@ func c14CheckText(rt *rapid.T, rec *vstat.Rec, txt *c14Text, s, r string, t0, t1
 	}
 
 	// oracle 2: faithfulness
+	// expected blob lengths come from SQLite itself: length(randomblob(<the literal as written>))
+	for _, site := range covered {
+		if site.kind() != "randomblob" {
+			continue
+		}
+		db, err := c14OpenScratch()
+		if err != nil {
+			rt.Skipf("scratch database trouble: %v", err)
+		}
+		err = db.QueryRow("SELECT length(randomblob(" + site.Args[0] + "))").Scan(&site.NLen)
+		db.Close()
+		if err != nil {
+			rt.Fatalf("HARNESS-BUG: SQLite cannot evaluate randomblob(%s): %v", site.Args[0], err)
+		}
+	}
 	vals, problem := c14Extract(txt, s, r)
 	if strings.HasPrefix(problem, "HARNESS") {
 		rt.Fatalf("HARNESS-BUG: %s: %s", problem, s)
